@@ -52,7 +52,8 @@ def oracle_c12(rep, case, o):
 def run(rep: C.Report):
     rep.rule = ("same generator as C05 (per-path response scripts incl. reconnect signals, persistent and "
                 "transient faults); distinct by (constructor, outcome, variant, #variants, response kinds, "
-                "pre-existing files)")
+                "pre-existing files); plus full runs whose release files disagree for k fetch rounds "
+                "(release_files_retries 1..4)")
     rep.assumptions += [
         "asyncio timers fire and asyncio.wait returns (event loop assumed)",
         "reconnect signals (response.retry) are finite per request in the model (pre_retries : nat)",
@@ -61,6 +62,9 @@ def run(rep: C.Report):
     rng = random.Random(rep.seed + 12)
     n = 700 if rep.tier == "quick" else 12000
     found = run_layer_a(rep, n, oracle_c12, rng, C.VERIF / "corpus" / "C12")
+    # release files: at most release_files_retries fetch rounds (full runs; generator and oracle of C11's loop tie)
+    from .c11 import run_loop
+    found |= run_loop(rep, 15 if rep.tier == "quick" else 600)
     C.proof_verdict(rep, found)
 
 
